@@ -1,33 +1,44 @@
 """C11 -- ACL authorization: first match wins over the lineage, default deny."""
 import os
 from harness.common import facts as F
-from harness.c11 import translate, entry
+from harness.c11 import translate, entry, skeleton
 
 ID = 'C11'
 HERE = os.path.dirname(os.path.abspath(__file__))
 CASES = {'quick': 20000, 'thorough': 400000}
 PARALLEL = True
-RULE = ('random lineages (depth<=6, ACL length<=6, missing/empty ACLs; ACL objects as list/tuple/callable returning a list/'
-        'generator method returning a one-shot iterator; permission names incl. proper substrings of each other and every string '
-        'constant the anchored code mentions; str-subclass instances as ACE permission / requested permission / principals; permission forms name/list/'
-        'tuple/ALL_PERMISSIONS/empty) x principal subsets x permission; non-trivial = at least one ACE in the '
-        'lineage matches principal AND permission (so the decision is not the default deny); distinct by full case')
-ASSUMPTIONS = ['ACE actions are compared with == against the Allow/Deny constants; principals and permissions are str',
+RULE = ('random lineages (depth<=6, ACL length<=6, missing/empty ACLs; __acl__ as list/tuple/callable returning a list/generator method '
+        'returning a one-shot iterator, found on the instance, on the class or through a property (also a property raising '
+        'AttributeError); ACEs as tuples or lists, the DENY_ALL constants themselves; the permission field of an ACE as bare str, '
+        'str-subclass instance, list/tuple/set/frozenset/dict/keys view/iterable-only object/one-shot generator, the all-permissions '
+        'marker of pyramid.authorization, of legacy pyramid.security, a fresh instance, an application subclass, or an object without '
+        '__iter__ (int, None, object); permission names incl. proper substrings of each other and every string constant the anchored '
+        'code mentions; str-subclass instances as requested permission / principals; principals as list/tuple/set/frozenset; root with '
+        '__parent__ = None or without the attribute; falsy resources) x principal subsets x permission, each decided through ACLHelper, '
+        'ACLAuthorizationPolicy, request.has_permission (with and without context argument, with and without a security policy), '
+        'security.principals_allowed_by_permission (with / without authorization policy), view_execution_permitted; non-trivial = at '
+        'least one ACE in the lineage matches principal AND permission (so the decision is not the default deny); distinct by full case')
+ASSUMPTIONS = ['ACE actions are compared with == against the Allow/Deny constants; principals and requested permissions are str',
                'a callable __acl__ is modelled by the list it returns (also when it returns a one-shot iterator: the translator '
-               'admits at most one iteration over an __acl__ value per path); lineage() is modelled as the __parent__ chain',
-               'ACLs are well-formed (every ACE a 3-tuple, permissions a str / iterable of str / ALL_PERMISSIONS): exceptions '
-               'raised on malformed ACLs are outside the translated fragment']
+               'admits at most one iteration over an __acl__ value per path, and at most one membership test in an ACE permission '
+               'field per path); lineage() is modelled as the __parent__ chain',
+               'ACLs are well-formed (every ACE a 3-sequence; the permission field a str, an iterable of str, an all-permissions '
+               'marker or an object without __iter__): exceptions raised on other malformed ACLs (e.g. __acl__ = None) are outside '
+               'the translated fragment',
+               'membership of a str permission in the one-element list [v] is modelled as: equal str, else False '
+               '(AllPermissionsList.__eq__ is an isinstance test; pinned)']
 TRUSTED = ['translator harness/c11/translate.py: its PRIMITIVE TABLE (which Python leaf expression / idiom / result constructor '
            'means which primitive of coq/Model/C11_base.v) and its mechanical statement-to-term rules; the control flow of '
-           'ACLHelper.permits / principals_allowed_by_permission is NOT hand-modelled any more: it is regenerated from the '
-           'source on every run and proved equal to the reference model (C11_generated_*_is_model)',
-           'primitives of coq/Model/C11_base.v (sets as duplicate-free lists, perm_in, is_allow/is_deny, decision) as models of '
-           'the Python operations the table maps to them',
+           'ACLHelper.permits / principals_allowed_by_permission, of util.is_nonstr_iter and of AllPermissionsList.__contains__ is '
+           'regenerated from the source on every run (C11_generated_*_is_model, C11_permission_test_is_containment)',
+           'primitives of coq/Model/C11_base.v (sets as duplicate-free lists; is_str / has_iter / normalise / contains on the four '
+           'kinds of permission-field objects; is_allow/is_deny; decision) as models of the Python operations the table maps to them',
            'public entry points: ACLAuthorizationPolicy is translated (delegation); request.has_permission, LegacySecurityPolicy.permits, '
-           'security.principals_allowed_by_permission / view_execution_permitted are name-blanked shape pins + exercised in a real '
-           'registry by every case (harness/c11/entry.py)',
-           'pyramid.location.lineage, is_nonstr_iter, AllPermissionsList.__contains__, ACLPermitsResult/ACLAllowed/ACLDenied '
-           '(shape-pinned, modelled by hand / by the table)']
+           'security.principals_allowed_by_permission are hand-modelled (Model/C11.v has_permission, sec_principals_allowed) under '
+           'name-blanked shape pins; view_execution_permitted is pinned and exercised; all run in real registries by every case '
+           '(harness/c11/entry.py)',
+           'pyramid.location.lineage, AllPermissionsList.__iter__/__eq__, ACLPermitsResult/ACLAllowed/ACLDenied (shape-pinned); '
+           'module- and class-level statements of authorization.py, security.py, location.py (skeleton pin, harness/c11/skeleton.py)']
 
 PRINCIPALS = ['system.Everyone', 'system.Authenticated', 'alice', 'bob', 'g:ed']
 PERMS = ['view', 'edit', 'del', 'vi', 'edit_own']      # with proper substrings of each other ('vi' < 'view', 'edit' < 'edit_own')
@@ -77,6 +88,7 @@ def pool():
 
 def pick_perm(rng):
     return rng.choice(pool()) if rng.random() < 0.12 else rng.choice(PERMS)
+PFORMS = ('list', 'tuple', 'set', 'frozenset')
 FORMS = (False, True, 'gen', 'tuple')     # values of loc['callable']: list / callable->list / generator method / tuple
 
 
@@ -84,6 +96,7 @@ def facts(src):
     problems = []
     summary = F.check_shapes(src, os.path.join(HERE, 'pins.json'), problems)
     summary.update(entry.check(src, problems))          # name-blanked pins of the pyramid.security entry points
+    summary.update(skeleton.check(src, problems))       # module- and class-level statements of the anchor files
     vals = {}
     try:
         m = F.Module(src, 'pyramid/security.py')
@@ -91,6 +104,9 @@ def facts(src):
             vals[n] = m.const(n)
             if not isinstance(vals[n], str):
                 raise ValueError('%s is not a str literal' % n)
+        if vals['Allow'] == vals['Deny']:
+            # the translator resolves `a == Deny` under a true `a == Allow` (and vice versa)
+            raise ValueError('the Allow and Deny constants are equal')
     except Exception as e:
         problems.append('security constants unrecognised: %r' % e)
         vals = {'Everyone': 'system.Everyone', 'Authenticated': 'system.Authenticated', 'Allow': 'Allow', 'Deny': 'Deny'}
@@ -108,16 +124,32 @@ def facts(src):
 
 
 # ------------------------------------------------------------ generation
+ALL_FORMS = ('ALL', 'ALL_LEGACY', 'ALL_FRESH', 'ALL_SUB')
+# forms of an ACE's permission field other than a bare str (a[2] = {'kind': K, 'names': [..]}):
+#   list / tuple / set / frozenset / dict (keys) / dictkeys (a keys view) / iter (an object that only has __iter__) /
+#   gen (a ONE-SHOT generator) / strsub (one name, an instance of a str subclass)
+CONTAINERS = ('list', 'tuple', 'set', 'frozenset', 'dict', 'dictkeys', 'iter', 'gen')
+# objects without __iter__ that are no str: an int, None (falsy), a plain object
+ATOMS = ('atom-int', 'atom-none', 'atom-object')
+
+
 def gen_perms(rng):
     r = rng.random()
+    if r < 0.09:
+        return 'ALL'                                  # pyramid.authorization.ALL_PERMISSIONS
     if r < 0.15:
-        return 'ALL'
-    if r < 0.40:
+        # other objects that ARE an all-permissions marker: the legacy pyramid.security.ALL_PERMISSIONS (an instance of
+        # the base class), a fresh instance, an instance of an application subclass
+        return rng.choice(ALL_FORMS[1:])
+    if r < 0.38:
         return pick_perm(rng)                         # bare string
-    if r < 0.50:
+    if r < 0.47:
         return {'kind': 'strsub', 'names': [pick_perm(rng)]}      # a single name that is an instance of a str SUBCLASS
+    if r < 0.51:
+        return {'kind': rng.choice(ATOMS), 'names': []}
     k = rng.choice([0, 1, 1, 2, 2, 3])
-    return {'kind': rng.choice(['list', 'tuple']), 'names': [pick_perm(rng) for _ in range(k)]}
+    kind = rng.choice(['list', 'tuple']) if rng.random() < 0.6 else rng.choice(CONTAINERS[2:])
+    return {'kind': kind, 'names': [pick_perm(rng) for _ in range(k)]}
 
 
 def gen_case(rng):
@@ -137,14 +169,30 @@ def gen_case(rng):
         # form of the ACL object: a list, a tuple, a callable returning the list, or a callable written as a
         # generator (returns a fresh ONE-SHOT iterator on every call)
         r = rng.random()
-        lin.append({'callable': True if r < 0.15 else 'gen' if r < 0.33 else 'tuple' if r < 0.40 else False, 'aces': aces})
+        loc = {'callable': True if r < 0.15 else 'gen' if r < 0.33 else 'tuple' if r < 0.40 else False, 'aces': aces}
+        if rng.random() < 0.12:
+            loc['acelist'] = True                     # every ACE a list [action, principal, permissions] instead of a tuple
+        r = rng.random()
+        if r < 0.16:
+            loc['via'] = 'class' if r < 0.08 else 'prop'      # __acl__ found on the class / computed by a property
+        lin.append(loc)
     k = rng.choice([0, 1, 1, 2, 2, 3, 5])
     principals = rng.sample(PRINCIPALS, k)
     # resources that are falsy (an empty dict-like folder): truthiness must not matter
     falsy = [rng.random() < 0.15 for _ in lin]
     # arguments passed as instances of a str subclass (equal to, but not of the exact type of, the plain strings)
     sub = [w for w in ('permission', 'principals') if rng.random() < 0.1]
-    return {'lineage': lin, 'principals': principals, 'permission': pick_perm(rng), 'falsy': falsy, 'sub': sub}
+    case = {'lineage': lin, 'principals': principals, 'permission': pick_perm(rng), 'falsy': falsy, 'sub': sub}
+    r = rng.random()
+    if r < 0.3:
+        # the root has no __parent__ attribute at all (lineage() ends on AttributeError) / a location without ACL whose
+        # __acl__ is a property that raises AttributeError
+        case['root'] = 'missing'
+    if rng.random() < 0.25:
+        case['pform'] = rng.choice(PFORMS[1:])         # the principals are handed over as a tuple / set / frozenset
+    if rng.random() < 0.2:
+        case['noacl'] = 'raises'
+    return case
 
 
 def _small_scope():
@@ -197,7 +245,8 @@ def valid(case):
         for loc in case['lineage']:
             if loc is None:
                 continue
-            if loc['callable'] not in FORMS:
+            if loc['callable'] not in FORMS or loc.get('via', 'attr') not in ('attr', 'class', 'prop') \
+                    or loc.get('acelist', False) not in (False, True):
                 return False
             for a in loc['aces']:
                 if len(a) != 3 or not isinstance(a[1], str) or a[1] == '' or a[0] not in ('Allow', 'Deny', 'Other'):
@@ -205,11 +254,14 @@ def valid(case):
                 if not (isinstance(a[2], str) and a[2] != '' or isinstance(a[2], dict)):
                     return False
                 if isinstance(a[2], dict):
-                    if a[2]['kind'] not in ('list', 'tuple', 'strsub') or not all(isinstance(x, str) and x for x in a[2]['names']):
+                    if a[2]['kind'] not in CONTAINERS + ATOMS + ('strsub',) or not all(isinstance(x, str) and x for x in a[2]['names']):
                         return False
                     if a[2]['kind'] == 'strsub' and len(a[2]['names']) != 1:
                         return False
         if not all(w in ('permission', 'principals') for w in case.get('sub', [])):
+            return False
+        if case.get('root', 'none') not in ('none', 'missing') or case.get('pform', 'list') not in PFORMS \
+                or case.get('noacl', 'missing') not in ('missing', 'raises'):
             return False
         return isinstance(case['permission'], str) and case['permission'] != '' and \
             all(isinstance(p, str) and p for p in case['principals'])
@@ -219,11 +271,15 @@ def valid(case):
 
 # ------------------------------------------------------------ wire
 def _perm_wire(p):
-    if p == 'ALL':
-        return 0
+    if p in ALL_FORMS:
+        return 0                                       # PAll
     if isinstance(p, str):
-        return [p]
-    return list(p['names'])
+        return [0, p]                                  # PStr
+    if p['kind'] == 'strsub':
+        return [0, p['names'][0]]                      # PStr (an instance of a str subclass is a str)
+    if p['kind'] in ATOMS:
+        return 1                                       # PAtom
+    return [1, list(p['names'])]                       # PNames
 
 
 def to_wire(case):
@@ -237,16 +293,18 @@ def to_wire(case):
 
 
 def from_wire(case, raw):
-    if raw == [['bad']] or len(raw) != 8:
+    if raw == [['bad']] or len(raw) != 11:
         return {'model': ['MODEL-BAD', raw], 'spec': None}
-    dec, allowed, spec_granted, wf, hdec, hallowed, pdec, pallowed = raw
+    dec, allowed, spec_granted, wf, hdec, hallowed, pdec, pallowed, hp_default, hp_nopolicy, pa_noauthz = raw
     # the model that is compared with the implementation is the program REGENERATED from the source;
     # the third spec component records whether the hand-written reference model answers the same
     # (always 1 while C11_generated_*_is_model compile)
     # [ACLHelper; ACLAuthorizationPolicy; request.has_permission + security.principals_allowed_by_permission (legacy
     #  policies in a real registry: they end in ACLAuthorizationPolicy); view_execution_permitted]
+    #  then: request.has_permission(p) WITHOUT a context argument (request.context is the context); the same in a
+    #  registry without any security policy; security.principals_allowed_by_permission without authorization policy]
     model = [dec, sorted(allowed), pdec, sorted(pallowed), pdec, sorted(pallowed),
-             NA if case['permission'] == RESERVED else pdec]
+             NA if case['permission'] == RESERVED else pdec, hp_default, hp_nopolicy, sorted(pa_noauthz)]
     same = 1 if (dec == hdec and sorted(allowed) == sorted(hallowed)) else 0
     return {'model': model, 'spec': [spec_granted, wf, same]}
 
@@ -256,11 +314,30 @@ _impl = {}
 
 
 def setup(tier):
-    from pyramid.authorization import ACLHelper, ALL_PERMISSIONS, Allow, Deny
+    import warnings
+    from pyramid import authorization as A
+    with warnings.catch_warnings():
+        warnings.simplefilter('ignore')
+        from pyramid import security as S
+        legacy_all, legacy_deny_all, base = S.ALL_PERMISSIONS, S.DENY_ALL, S.AllPermissionsList
     from pyramid.security import NO_PERMISSION_REQUIRED
     global RESERVED
     RESERVED = NO_PERMISSION_REQUIRED
-    _impl.update(helper=ACLHelper(), ALL=ALL_PERMISSIONS, Allow=Allow, Deny=Deny, world=entry.World(PERMS))
+
+    class AppAllPermissions(base):
+        """an application's own subclass of the (legacy) all-permissions class"""
+
+    def world(**kw):
+        # a change that breaks configuration itself (e.g. in a helper the whole framework uses) must not stop the direct
+        # routes (ACLHelper, ACLAuthorizationPolicy) from being judged: the registry routes then answer with an exception
+        try:
+            return entry.World(PERMS, **kw)
+        except Exception as e:
+            return entry.BrokenWorld(e, A.ACLAuthorizationPolicy())
+
+    _impl.update(helper=A.ACLHelper(), ALL=A.ALL_PERMISSIONS, Allow=A.Allow, Deny=A.Deny, world=world(),
+                 bare=world(policies=False), ALL_LEGACY=legacy_all, ALL_CLASS=A.AllPermissionsList, ALL_SUBCLASS=AppAllPermissions,
+                 DENY_ALL=A.DENY_ALL, DENY_ALL_LEGACY=legacy_deny_all, Everyone=A.Everyone)
 
 
 class _Loc:
@@ -271,6 +348,16 @@ class _S(str):
     """a str subclass (like a member of a str-mixin Enum): equal to the plain string, of another exact type"""
 
 
+class _Iter:
+    """an iterable that is no container: only __iter__ (`x in it` falls back to iteration)"""
+
+    def __init__(self, names):
+        self._names = list(names)
+
+    def __iter__(self):
+        return iter(self._names)
+
+
 def _args(case):
     sub = case.get('sub') or []
     ps = [(_S(x) if 'principals' in sub else x) for x in case['principals']]
@@ -278,51 +365,103 @@ def _args(case):
     return ps, p
 
 
+def _pcontainer(case, ps):
+    """the principals, in the container form of the case (each call gets its own container)"""
+    return {'list': list, 'tuple': tuple, 'set': set, 'frozenset': frozenset}[case.get('pform', 'list')](ps)
+
+
 class _EmptyFolder(dict):
     """a container resource without children: falsy, like any empty mapping"""
     __hash__ = object.__hash__
 
 
+def _raise_attr(self):
+    raise AttributeError('__acl__')
+
+
+def _perm_value(p):
+    if p == 'ALL':
+        return _impl['ALL']
+    if p == 'ALL_LEGACY':
+        return _impl['ALL_LEGACY']
+    if p == 'ALL_FRESH':
+        return _impl['ALL_CLASS']()
+    if p == 'ALL_SUB':
+        return _impl['ALL_SUBCLASS']()
+    if isinstance(p, str):
+        return p
+    names, kind = list(p['names']), p['kind']
+    if kind == 'strsub':
+        return _S(names[0])
+    if kind in ATOMS:
+        return {'atom-int': 7, 'atom-none': None, 'atom-object': _Loc()}[kind]
+    if kind == 'dict':
+        return dict.fromkeys(names, 1)
+    if kind == 'dictkeys':
+        return dict.fromkeys(names, 1).keys()
+    if kind == 'iter':
+        return _Iter(names)
+    if kind == 'gen':
+        return (x for x in names)                       # one-shot: every call of the code under test gets fresh objects
+    return {'list': list, 'tuple': tuple, 'set': set, 'frozenset': frozenset}[kind](names)
+
+
 def _build(case):
+    """fresh resource objects for ONE call of the code under test (ACE permission fields may be one-shot iterators)"""
     locs = []
     falsy = case.get('falsy') or []
     for k, loc in enumerate(case['lineage']):
-        o = _EmptyFolder() if (k < len(falsy) and falsy[k]) else _Loc()
-        if loc is not None:
-            aces = []
-            for a in loc['aces']:
-                act = {'Allow': _impl['Allow'], 'Deny': _impl['Deny']}.get(a[0], 'Perhaps')
-                p = a[2]
-                if p == 'ALL':
-                    pv = _impl['ALL']
-                elif isinstance(p, str):
-                    pv = p
-                elif p['kind'] == 'strsub':
-                    pv = _S(p['names'][0])
-                elif p['kind'] == 'tuple':
-                    pv = tuple(p['names'])
-                else:
-                    pv = list(p['names'])
-                aces.append(tuple([act, a[1], pv]))
-            o._aces = aces
-            form = loc['callable']
-            if form == 'gen':
-                o.__acl__ = (lambda aces=aces: (e for e in aces))     # a fresh one-shot iterator per call
-            elif form == 'tuple':
-                o.__acl__ = tuple(aces)
-            elif form:
-                o.__acl__ = (lambda aces=aces: aces)
+        base = _EmptyFolder if (k < len(falsy) and falsy[k]) else _Loc
+        if loc is None:
+            if case.get('noacl') == 'raises':
+                # no ACL: reading __acl__ raises AttributeError from a property
+                base = type('_NoAcl', (base,), {'__acl__': property(_raise_attr)})
+            locs.append(base())
+            continue
+        aces = []
+        for a in loc['aces']:
+            act = {'Allow': _impl['Allow'], 'Deny': _impl['Deny']}.get(a[0], 'Perhaps')
+            if loc.get('acelist'):
+                aces.append([act, a[1], _perm_value(a[2])])
+            elif a[0] == 'Deny' and a[1] == _impl['Everyone'] and a[2] == 'ALL':
+                aces.append(_impl['DENY_ALL'])              # the constant itself
+            elif a[0] == 'Deny' and a[1] == _impl['Everyone'] and a[2] == 'ALL_LEGACY':
+                aces.append(_impl['DENY_ALL_LEGACY'])
             else:
-                o.__acl__ = aces
+                aces.append(tuple([act, a[1], _perm_value(a[2])]))
+        form = loc['callable']
+        if form == 'gen':
+            value = (lambda aces=aces: (e for e in aces))     # a fresh one-shot iterator per call
+        elif form == 'tuple':
+            value = tuple(aces)
+        elif form:
+            value = (lambda aces=aces: aces)
+        else:
+            value = aces
+        via = loc.get('via', 'attr')
+        if via == 'class':
+            # found on the class (a function stored on a class would become a bound method: keep it a plain callable)
+            o = type('_ClsAcl', (base,), {'__acl__': staticmethod(value) if callable(value) else value})()
+        elif via == 'prop':
+            o = type('_PropAcl', (base,), {'__acl__': property(lambda self, value=value: value)})()
+        else:
+            o = base()
+            o.__acl__ = value
+        o._aces = aces
         locs.append(o)
     for i, o in enumerate(locs):
-        o.__parent__ = locs[i + 1] if i + 1 < len(locs) else None
+        if i + 1 < len(locs):
+            o.__parent__ = locs[i + 1]
+        elif case.get('root', 'none') != 'missing':
+            o.__parent__ = None
     return locs
 
 
 def _dec(r, locs):
     """canonical form of a permits result: [granted] for the default deny, [granted, location index, ACE index]"""
     if not hasattr(r, 'ace'):
+        if getattr(r, 'msg', None) == 'No security policy in use.':
+            return [1 if r else 0, 'no-policy']
         return [1 if r else 0, 'not-an-acl-result']
     if isinstance(r.ace, str):
         return [1 if r else 0]
@@ -336,35 +475,39 @@ def _deciders():
     return [lambda c, ps, p: h.permits(c, ps, p),
             lambda c, ps, p: w.policy.permits(c, ps, p),
             lambda c, ps, p: w.has_permission(c, ps, p),
-            lambda c, ps, p: w.view_execution_permitted(c, ps, p)]
+            lambda c, ps, p: w.view_execution_permitted(c, ps, p),
+            lambda c, ps, p: w.has_permission_default(c, ps, p),
+            lambda c, ps, p: _impl['bare'].has_permission(c, ps, p)]
 
 
 def _reporters():
     h, w = _impl['helper'], _impl['world']
     return [lambda c, p: h.principals_allowed_by_permission(c, p),
             lambda c, p: w.policy.principals_allowed_by_permission(c, p),
-            lambda c, p: w.principals_allowed(c, p)]
+            lambda c, p: w.principals_allowed(c, p),
+            lambda c, p: _impl['bare'].principals_allowed(c, p)]
 
 
 def run_impl(case):
     if not _impl:
         setup('quick')
-    locs = _build(case)
     decs, sets = [], []
     ps, p = _args(case)
     for f in _deciders():
+        locs = _build(case)
         try:
-            decs.append(_dec(f(locs[0], list(ps), p), locs))
+            decs.append(_dec(f(locs[0], _pcontainer(case, ps), p), locs))
         except Exception as e:
             decs.append(['EXC', type(e).__name__])
     for f in _reporters():
+        locs = _build(case)
         try:
             sets.append(sorted(str(x) for x in f(locs[0], p)))
         except Exception as e:
             sets.append(['EXC', type(e).__name__])
     if case['permission'] == RESERVED:
         decs[3] = NA
-    return [decs[0], sets[0], decs[1], sets[1], decs[2], sets[2], decs[3]]
+    return [decs[0], sets[0], decs[1], sets[1], decs[2], sets[2], decs[3], decs[4], decs[5], sets[3]]
 
 
 # ------------------------------------------------------------ judging
@@ -374,7 +517,7 @@ def spec_holds(case, obs, spec):
     if spec is None:
         return None
     spec_granted, wf = spec[0], spec[1]
-    for dec in (obs[0], obs[2], obs[4], obs[6]):
+    for dec in (obs[0], obs[2], obs[4], obs[6], obs[7]):
         if dec == NA:
             continue
         if dec and dec[0] == 'EXC':
@@ -383,13 +526,11 @@ def spec_holds(case, obs, spec):
             return False
     if wf:
         deciders = _deciders()
-        locs = None
         for k, allowed in enumerate((obs[1], obs[3], obs[5])):
             if allowed and allowed[0] == 'EXC':
                 return False
             for q in allowed:
-                locs = locs or _build(case)
-                if not deciders[k](locs[0], [q, 'system.Everyone'], _args(case)[1]):
+                if not deciders[k](_build(case)[0], [q, 'system.Everyone'], _args(case)[1]):
                     return False
     return True
 
@@ -410,6 +551,25 @@ def kinds(case, obs):
         k.append('has-str-subclass-permission')
     if case['permission'] not in PERMS:
         k.append('permission-name-from-source')
+    pf = {(a[2] if isinstance(a[2], str) else a[2]['kind']) for loc in case['lineage'] if loc for a in loc['aces']}
+    if pf & set(ALL_FORMS[1:]):
+        k.append('has-other-all-permissions-marker')
+    if pf & set(CONTAINERS[2:]):
+        k.append('has-nonlist-permission-container')
+    if 'gen' in pf:
+        k.append('has-oneshot-permission-iterator')
+    if pf & set(ATOMS):
+        k.append('has-noniterable-permission-object')
+    if case.get('root') == 'missing':
+        k.append('root-without-__parent__')
+    if case.get('noacl') == 'raises' and None in case['lineage']:
+        k.append('acl-property-raises-attributeerror')
+    if case.get('pform', 'list') != 'list':
+        k.append('principals-not-a-list')
+    if any(loc.get('via', 'attr') != 'attr' for loc in case['lineage'] if loc):
+        k.append('acl-on-class-or-property')
+    if any(loc.get('acelist') for loc in case['lineage'] if loc):
+        k.append('ace-as-list')
     forms = {loc['callable'] for loc in case['lineage'] if loc is not None}
     for f, name in ((True, 'has-callable-acl'), ('gen', 'has-generator-acl'), ('tuple', 'has-tuple-acl')):
         if f in forms:
@@ -423,20 +583,28 @@ def describe(case):
 
 TECHNIQUE = ('Coq proof (induction over lineage and ACL) about a Gallina program whose control flow is translated from the Python '
              'source on every run (fail-closed ast translator, leaves through a small primitive table), proved equal to a '
-             'hand-written reference model + extracted-program differential correspondence')
+             'hand-written reference model + extracted-program differential correspondence through every public entry point')
 LEVEL_TEXT = ('Machine-checked theorems, for lineages and ACLs of any size, stated literally about the program regenerated from '
-              'src/pyramid/authorization.py on this run (gen_permits, gen_principals_allowed in coq/Gen/Facts_C11.v): the loop of '
-              'ACLHelper.permits equals the declarative first-matching-ACE decision (incl. which ACE decided, default deny, '
-              'child-before-ancestor), and every principal in principals_allowed_by_permission is granted when presented with '
-              'Everyone. C11_generated_permits_is_model / C11_generated_principals_allowed_is_model prove, by one induction per '
-              'loop, that the regenerated program is the hand-written reference model; a semantics-preserving rewrite of the '
-              'methods (renamed locals, `if a: if b:` vs `if a and b:`, elif vs nested if, independent tests/statements moved) '
-              'regenerates a different term and the same proofs go through, a change of meaning makes them fail. The extracted '
-              'regenerated program is run differentially against ACLHelper, through ACLHelper, ACLAuthorizationPolicy, request.has_permission (legacy '
-              'policies), security.principals_allowed_by_permission and view_execution_permitted, with ACL objects given as lists, tuples, callables '
-              'and generator methods (one-shot iterators).')
+              'src/pyramid/authorization.py, util.py (is_nonstr_iter) and security.py (AllPermissionsList.__contains__) on this run: '
+              'the loop of ACLHelper.permits equals the declarative first-matching-ACE decision (incl. which ACE decided, default '
+              'deny, child-before-ancestor), where "matches" is the property\'s containment (a name contains itself, an iterable its '
+              'elements, the all-permissions marker everything: C11_permission_test_is_containment proves that the normalisation '
+              'idiom + the regenerated leaf functions compute exactly that, and C11_unnormalised_str_is_substring_test what happens '
+              'without it); every principal in principals_allowed_by_permission is granted when presented with Everyone, and the '
+              'reported collection is characterised exactly (C11_principals_allowed_exact: q is reported iff the first entry speaking '
+              'about q -- Allow/Deny naming q or Deny of Everyone, permission contained -- is an Allow), has no duplicates, and the '
+              'Allow/Deny hypothesis of the consistency theorem is shown necessary (C11_allowed_consistent_refuted_without_wf). '
+              'C11_generated_*_is_model prove, by one induction per loop, that the regenerated program is the hand-written reference '
+              'model; a semantics-preserving rewrite regenerates a different term and the same proofs go through, a change of meaning '
+              'makes them fail. request.has_permission and security.principals_allowed_by_permission are modelled with their '
+              'no-policy branches (C11_has_permission_first_match, C11_sec_principals_allowed_consistent). The extracted program is '
+              'run differentially against the code through ACLHelper, ACLAuthorizationPolicy, request.has_permission (explicit and '
+              'default context, with and without policy), security.principals_allowed_by_permission and view_execution_permitted.')
 LEVEL_NOTE = ('Trusted: Coq kernel; the translator (mechanical control-flow rules + the primitive table in the docstring of '
               'harness/c11/translate.py -- the table is the trusted part; anything outside subset/table is a broken tie, never a '
-              'guess); the primitives of Model/C11_base.v; Python harness; lineage(), is_nonstr_iter, AllPermissionsList, the '
-              'ACLPermitsResult classes are shape-pinned and modelled (lineage as the __parent__ chain built by the harness). '
-              'Callable ACLs are represented by the list they return. The consistency theorem assumes ACE actions are Allow or Deny.')
+              'guess); the primitives of Model/C11_base.v; Python harness; lineage(), AllPermissionsList.__iter__/__eq__, the '
+              'ACLPermitsResult classes and the security.py entry points are shape-pinned and modelled by hand (lineage as the '
+              '__parent__ chain built by the harness); module/class-level statements of the three anchor files are pinned as a '
+              'skeleton. Callable ACLs are represented by the list they return. The consistency theorem assumes ACE actions are '
+              'Allow or Deny (necessary: refuted without). A TypeError of `p in <non-iterable>` is modelled as False and shown '
+              'unreachable under the regenerated is_nonstr_iter (C11_normalisation_wraps_exactly_the_non_iterables).')
